@@ -844,3 +844,47 @@ func init() {
 	All["C20"].Rules += " R11"
 	addLevel("C20", "posting lists of the text indexes are intersected/united by sorted two-cursor merges with the smaller side advancing.")
 }
+
+func init() {
+	old := All["C20"].Run
+	All["C20"].Run = func(c *an.Ctx) {
+		old(c)
+		c20oneCellPerAtom(c)
+	}
+	All["C20"].Rules += " R12"
+	addLevel("C20", "every atom of a key condition gets a literal cell of its own in the value column (open integer bounds are rewritten in place; a shared cell would change the other atoms that compare with the same literal).")
+}
+
+// c20oneCellPerAtom — C20.R12.
+func c20oneCellPerAtom(c *an.Ctx) {
+	const S = "engine/index/sparseindex"
+	r := c.Rule("C20.R12", "K-ORDER(ownership)", S+":(*KeyConditionImpl).genRPNElementByVal — the literal of the atom is appended to the value column on every path that builds the atom (one cell per atom, never a shared one)")
+	f := fn(r, S+":KeyConditionImpl.genRPNElementByVal")
+	if f == nil {
+		return
+	}
+	app := f.Find(an.MNode("column.Append{String,Float,Integer,Boolean}(literal)", func(g *an.Fn, m ast.Node) bool {
+		ce, ok := m.(*ast.CallExpr)
+		if !ok || len(ce.Args) != 1 {
+			return false
+		}
+		sel, ok := ce.Fun.(*ast.SelectorExpr)
+		if !ok {
+			return false
+		}
+		switch sel.Sel.Name {
+		case "AppendString", "AppendFloat", "AppendInteger", "AppendBoolean":
+			return true
+		}
+		return false
+	}))
+	build := f.Find(call(r, S+":genRPNElementByOp"))
+	if r.Failed() {
+		return
+	}
+	if app.Len() == 0 {
+		r.Fail(f.Name+": literal cell", c.P.Pos(f.Body.Pos()), "genRPNElementByVal no longer appends the atom's literal to the value column itself: a helper that looks an equal literal up first hands several atoms the same cell, and the in-place rewrite of an open integer bound (turnOpenRangeIntoClosed) then changes the other atoms")
+		return
+	}
+	f.Precedes(r, app, build, an.OrderOpt{Label: "literal appended ≺ atom built"})
+}
